@@ -4,6 +4,13 @@
 //! target's RateLimiter for a request is observed as "did exactly one Flush reach the spy
 //! terminal during this call", the verdict of the bar's AtomicPosition limiter as "was the
 //! `tick` callback of a custom ProgressTracker invoked during this call".
+//!
+//! The oracle states the property on these observations with its own bookkeeping of the live
+//! state of every bar (docs/C05.md, "The tie"): window bound and liveness of painted frames,
+//! window bound and liveness of the position limiter, staleness (`stale` stand-alone,
+//! `multi-stale` per MultiProgress member), and frame content = the LATEST state of the bar resp.
+//! of every member that has a row.  The one known deviation (open finding D27) is recognised by a
+//! predicate on the failing row, see `D27_CLASS`.
 use indicatif::verif_clock::{set_auto_step_ns, set_clock_ns, Instant, ORIGIN_NS};
 use indicatif::{MultiProgress, ProgressBar, ProgressDrawTarget, ProgressState, ProgressStyle};
 use std::sync::atomic::{AtomicU64, Ordering};
@@ -14,6 +21,19 @@ use verif_harness::*;
 const NS: u64 = 1_000_000_000;
 const MS: u64 = 1_000_000;
 const HOUR: u64 = 3600 * NS;
+
+/// Open finding D27 (known_findings.json).  The class is a predicate on ONE failing observation:
+/// a painted MultiProgress frame triggered by the call of another member shows for member `b`
+/// exactly `b`'s state as of its last draw step, which differs from `b`'s current state in the
+/// position only, AND `b`'s last inc/dec/set_position was refused by `b`'s own position limiter
+/// (no tracker tick) with no later draw step of `b`.  Any other row mismatch is `frame-content`.
+const D27_CLASS: &str = "multi-member-stale-after-throttled-position-update";
+/// D27 is listed as open in known_findings.json, so it is reported (KNOWN-FINDING line).  Set to
+/// false only if the entry is removed from that file: occurrences are then still counted
+/// (`d27:*` keys of the input distribution) but not reported.
+const REPORT_D27_FINDING: bool = true;
+/// `Session::fail` keeps at most 200 failures: never let the known class crowd out a new one
+const D27_REPORT_CAP: u64 = 12;
 
 #[derive(Clone, Debug, PartialEq)]
 enum Op {
@@ -250,8 +270,18 @@ fn run_impl(c: &Case) -> (Vec<Result<Obs, String>>, Vec<String>) {
     (out, problems)
 }
 
+fn report_d27(s: &mut Session, reported: &mut u64, detail: String, desc: &str) {
+    s.count("d27:occurrences");
+    if REPORT_D27_FINDING && *reported < D27_REPORT_CAP {
+        *reported += 1;
+        s.fail(D27_CLASS, detail, desc.to_string());
+    } else if REPORT_D27_FINDING {
+        s.count(&format!("oracle_failure:{D27_CLASS}"));
+    }
+}
+
 /// The property, evaluated directly on what the implementation did.
-fn oracle(s: &mut Session, c: &Case, obs: &[Result<Obs, String>], problems: &[String], desc: &str) {
+fn oracle(s: &mut Session, c: &Case, obs: &[Result<Obs, String>], problems: &[String], desc: &str, d27_reported: &mut u64) {
     for p in problems {
         s.fail("protocol", p.clone(), desc.to_string());
     }
@@ -265,6 +295,17 @@ fn oracle(s: &mut Session, c: &Case, obs: &[Result<Obs, String>], problems: &[St
     let mut upd: Vec<Vec<(u64, bool)>> = vec![vec![]; n];
     let mut last_ev: Vec<Option<u64>> = vec![None; n];
     let mut last_paint: Option<u64> = None;
+    // MultiProgress members.  pos_refused[m]: m's last inc/dec/set_position did not produce a
+    // tracker tick (refused by m's own position limiter) and m has made no draw step since;
+    // good[m] / stale27[m]: instant of the most recent painted frame whose row for m was m's
+    // then-current state / was stale in the D27 way; these feed the multi staleness oracle
+    let mut pos_refused: Vec<bool> = vec![false; n];
+    let mut good: Vec<Option<u64>> = vec![None; n];
+    let mut stale27: Vec<Option<u64>> = vec![None; n];
+    let mut had_row: Vec<bool> = vec![false; n];
+    let mut d27_in_case = false;
+    let mut multi_stale_in_case = false;
+    let stale_limit = c.rate.map(|r| interval_ns(r) + MS);
     for (k, ((t, i, o), ob)) in c.ops.iter().zip(obs.iter()).enumerate() {
         let ob = match ob {
             Ok(ob) => ob,
@@ -314,9 +355,14 @@ fn oracle(s: &mut Session, c: &Case, obs: &[Result<Obs, String>], problems: &[St
             if ob.frame.is_some() {
                 s.fail("protocol", format!("call #{k}: frame painted for a throttled position update"), desc.to_string());
             }
+            pos_refused[i] = true;
+            if c.multi {
+                multi_stale(s, c, k, t, i, stale_limit, last_paint, &good, &stale27, &had_row, &mut multi_stale_in_case, &mut d27_in_case, d27_reported, desc);
+            }
             continue;
         }
         shown[i] = Some(live[i]);
+        pos_refused[i] = false;
         let painted = ob.frame.is_some();
         reqs.push((t, painted));
         // liveness of the target limiter
@@ -342,16 +388,69 @@ fn oracle(s: &mut Session, c: &Case, obs: &[Result<Obs, String>], problems: &[St
         }
         if painted {
             last_paint = Some(t);
-            // nothing lost: the frame shows the latest state
-            let want: Vec<Row> = if c.multi { shown.iter().flatten().cloned().collect() } else { vec![live[i]] };
+            // nothing lost: the frame shows the LATEST state - of the bar, and for a MultiProgress
+            // of every member that has a row (a member gets its row with its first draw step)
             let got = ob.frame.clone().unwrap();
-            if got != want {
-                s.fail(
-                    "frame-content",
-                    format!("call #{k}: painted rows {got:?}, latest state is {want:?}"),
-                    desc.to_string(),
-                );
+            if !c.multi {
+                let want = vec![live[i]];
+                if got != want {
+                    s.fail(
+                        "frame-content",
+                        format!("call #{k}: painted rows {got:?}, latest state is {want:?}"),
+                        desc.to_string(),
+                    );
+                }
+            } else {
+                let members: Vec<usize> = (0..n).filter(|m| shown[*m].is_some()).collect();
+                let want: Vec<Row> = members.iter().map(|m| live[*m]).collect();
+                if got.len() != want.len() {
+                    s.fail(
+                        "frame-content",
+                        format!("call #{k}: painted rows {got:?}, latest state of the members with a row is {want:?}"),
+                        desc.to_string(),
+                    );
+                } else {
+                    for (j, &m) in members.iter().enumerate() {
+                        had_row[m] = true;
+                        if got[j] == want[j] {
+                            good[m] = Some(t);
+                            continue;
+                        }
+                        // the D27 predicate, on this row of this frame
+                        let is_d27 = m != i
+                            && pos_refused[m]
+                            && Some(got[j]) == shown[m]
+                            && got[j].1 == live[m].1
+                            && got[j].2 == live[m].2
+                            && got[j].0 != live[m].0;
+                        if is_d27 {
+                            stale27[m] = Some(t);
+                            s.count("d27:stale-rows");
+                            if !d27_in_case {
+                                d27_in_case = true;
+                                report_d27(
+                                    s,
+                                    d27_reported,
+                                    format!(
+                                        "call #{k} (bar {i}) painted {got:?}: member {m} is shown as {:?} (its last draw step) but its latest state is {:?}; its last position update was refused by its own position limiter",
+                                        got[j], live[m]
+                                    ),
+                                    desc,
+                                );
+                            }
+                        } else {
+                            s.fail(
+                                "frame-content",
+                                format!("call #{k}: painted rows {got:?}, latest state is {want:?} (member {m} differs, not the known D27 pattern)"),
+                                desc.to_string(),
+                            );
+                        }
+                    }
+                }
             }
+        }
+        if c.multi {
+            multi_stale(s, c, k, t, i, stale_limit, last_paint, &good, &stale27, &had_row, &mut multi_stale_in_case, &mut d27_in_case, d27_reported, desc);
         }
     }
     // window bound of the target limiter: every window [t_i, t_j]
@@ -414,6 +513,76 @@ fn oracle(s: &mut Session, c: &Case, obs: &[Result<Obs, String>], problems: &[St
     }
 }
 
+/// Staleness for a member of a MultiProgress, at the instant `t` of call #k on member `i` (after
+/// the call's own frame, if any, has been taken into account): (A) the last painted frame -
+/// whoever triggered it - is younger than one refresh interval + 1 ms (C05_frame_age_partial),
+/// and (B) there is such a young frame whose row for `i` was `i`'s then-current state.
+/// (B) is waived while no painted frame has contained a row of `i` yet (docs/C05.md,
+/// Interpretations: a member appears with the first frame painted after its first draw step;
+/// `frame-content` checks that it does).  (B) failing although a young frame exists that shows
+/// `i` stale in the D27 way is D27 again; anything else is `multi-stale`.
+#[allow(clippy::too_many_arguments)]
+fn multi_stale(
+    s: &mut Session,
+    c: &Case,
+    k: usize,
+    t: u64,
+    i: usize,
+    limit: Option<u64>,
+    last_paint: Option<u64>,
+    good: &[Option<u64>],
+    stale27: &[Option<u64>],
+    had_row: &[bool],
+    failed: &mut bool,
+    d27_in_case: &mut bool,
+    d27_reported: &mut u64,
+    desc: &str,
+) {
+    let Some(limit) = limit else { return };
+    let r = c.rate.unwrap();
+    let young = |f: Option<u64>| matches!(f, Some(f) if t - f < limit);
+    if !young(last_paint) {
+        if !*failed {
+            *failed = true;
+            s.fail(
+                "multi-stale",
+                format!("call #{k} (member {i}) at clock {t}: the last painted frame of the MultiProgress is {:?} ns old (>= 1/{r} s + 1 ms)", last_paint.map(|f| t - f)),
+                desc.to_string(),
+            );
+        }
+        return;
+    }
+    if young(good[i]) {
+        s.count("multi-stale:checked-ok");
+        return;
+    }
+    if young(stale27[i]) {
+        s.count("d27:stale-at-call");
+        if !*d27_in_case {
+            *d27_in_case = true;
+            report_d27(
+                s,
+                d27_reported,
+                format!("call #{k} (member {i}) at clock {t}: the only frames younger than 1/{r} s + 1 ms show member {i} at the position of its last draw step (last frame with its then-current row: {:?})", good[i]),
+                desc,
+            );
+        }
+        return;
+    }
+    if !had_row[i] {
+        s.count("multi-stale:not-yet-displayed");
+        return;
+    }
+    if !*failed {
+        *failed = true;
+        s.fail(
+            "multi-stale",
+            format!("call #{k} (member {i}) at clock {t}: no frame younger than 1/{r} s + 1 ms contains member {i}'s then-current row (last one: {:?})", good[i]),
+            desc.to_string(),
+        );
+    }
+}
+
 fn coq_case(c: &Case, obs: &[Result<Obs, String>]) -> String {
     let cfg = format!(
         "({}, {}, {}, {})",
@@ -462,10 +631,10 @@ fn gap_class(g: u64, iv: u64) -> &'static str {
     }
 }
 
-fn run_case(s: &mut Session, c: &Case) {
+fn run_case(s: &mut Session, c: &Case, d27_reported: &mut u64) {
     let desc = describe(c);
     let (obs, problems) = run_impl(c);
-    oracle(s, c, &obs, &problems, &desc);
+    oracle(s, c, &obs, &problems, &desc, d27_reported);
     // input / outcome distribution
     let iv = c.rate.map(interval_ns).unwrap_or(MS);
     let mut prev = c.t0;
@@ -565,9 +734,12 @@ fn gen_case(r: &mut Rng, rate: Option<u8>, multi: bool, tag: &str) -> Case {
     let mut ops = vec![];
     // most cases first empty the target's bucket so that the boundary gaps decide the verdicts
     let predrain = if r.chance(2, 3) { 21 + r.below(3) as usize } else { 0 };
+    // MultiProgress: in a third of the cases the last member stays out of the drain, so that its
+    // first draw step meets an empty shared bucket (docs/C05.md, Interpretation 1)
+    let drainers = if multi && nb > 1 && r.chance(1, 3) { nb - 1 } else { nb };
     for _ in 0..predrain {
         now += r.below(2);
-        ops.push((now, r.below(nb as u64) as usize, if style == 1 { Op::Tick } else { gen_op(r, style.min(2)) }));
+        ops.push((now, r.below(drainers as u64) as usize, if style == 1 { Op::Tick } else { gen_op(r, style.min(2)) }));
     }
     for k in 0..len {
         let g = match pattern {
@@ -623,6 +795,61 @@ fn corpus() -> Vec<Case> {
     let t0 = ORIGIN_NS;
     let ticks = |times: Vec<u64>| -> Vec<(u64, usize, Op)> { times.into_iter().map(|t| (t, 0, Op::Tick)).collect() };
     let mut v = vec![];
+    // D27 (OPEN, known_findings.json; Coq: C05_nothing_lost_member_refuted, C05_nonvacuous_sys):
+    // deterministic witness, first in the corpus so that the KNOWN-FINDING line always appears.
+    // MultiProgress at 1 Hz, members A and B.  Eleven A.inc(1) at +5 ns: ten reach and are painted,
+    // the eleventh is refused by A's own position limiter (burst 10, 1 ms) - A.position() == 11, A's
+    // stored lines say 10.  B.tick() at +6 ns is painted: the frame shows "10/100/0" for A.
+    v.push(Case {
+        multi: true,
+        rate: Some(1),
+        t0,
+        bars: vec![(t0, 100), (t0, 100)],
+        ops: (0..11).map(|_| (t0 + 5, 0, Op::Inc(1))).chain([(t0 + 6, 1, Op::Tick)]).collect(),
+        tag: "corpus:D27-member-stale-after-throttled-inc".into(),
+    });
+    // the audit's witness (docs/audit-parts/C05.md section 4): twelve inc on member 1, then a tick
+    // of member 0 thirty seconds later still shows member 1 at 10
+    v.push(Case {
+        multi: true,
+        rate: Some(1),
+        t0,
+        bars: vec![(t0, 10), (t0, 10)],
+        ops: (0..12).map(|_| (t0, 1, Op::Inc(1))).chain([(t0 + 30 * NS, 0, Op::Tick)]).collect(),
+        tag: "corpus:D27-audit-witness-30s".into(),
+    });
+    // D27 seen by the staleness oracle: A goes out of sync at +10 ns; B drains the bucket at 1.5 s
+    // (ten frames, all showing A's old position); A.tick() at 1.9 s is a draw step refused by the
+    // target's limiter: the frames younger than 1/R + 1 ms all show A stale, the last frame with
+    // A's then-current row is the one at +0 (1.9 s old).  Afterwards A is in sync again (the tick
+    // was a draw step) and the frame at 2.0 s shows it.
+    v.push(Case {
+        multi: true,
+        rate: Some(1),
+        t0,
+        bars: vec![(t0, 100), (t0, 100)],
+        ops: (0..10)
+            .map(|_| (t0, 0, Op::Inc(1)))
+            .chain([(t0 + 10, 0, Op::Inc(1))])
+            .chain((0..11).map(|_| (t0 + 1_500_000_000, 1, Op::Tick)))
+            .chain([(t0 + 1_900_000_000, 0, Op::Tick), (t0 + 2 * NS, 1, Op::Tick)])
+            .collect(),
+        tag: "corpus:D27-stale-at-call".into(),
+    });
+    // a member that asks for its first frame while the bucket is empty appears with the next painted
+    // frame, whoever triggers it (Interpretations in docs/C05.md): B drains, A.set_message refused,
+    // B.tick one interval later shows both rows
+    v.push(Case {
+        multi: true,
+        rate: Some(2),
+        t0,
+        bars: vec![(t0, 7), (t0, 8)],
+        ops: (0..21)
+            .map(|k| (t0 + k, 1, Op::Tick))
+            .chain([(t0 + 30, 0, Op::SetMsg(5)), (t0 + 40, 0, Op::Inc(2)), (t0 + NS / 2, 1, Op::Tick), (t0 + NS / 2 + 1, 0, Op::Tick)])
+            .collect(),
+        tag: "corpus:multi-first-row-waits-for-a-token".into(),
+    });
     // D12 (fixed by e4a1051): 20 Hz, full bucket; 21 requests 1 ns before the second token
     // matures and one when it does: the old code painted all 22 within 1 ns (a request that met a
     // full bucket was free, plus the carried token); at most 21 may be painted
@@ -750,8 +977,9 @@ fn main() {
     s.shard_size = 60;
     s.rule = "call histories (1..150 calls of tick/inc/dec/set_position/set_message/set_length/reset at chosen mock-clock instants; gaps from the alphabet {0,1ns,I-1,I,I+1,kI-1,kI,kI+1,1h} for I = the refresh interval and I = 1 ms, mixed with random gaps; burst/sustained/drain-refill patterns) on a stand-alone bar over term_like_with_hz(R), an unthrottled term_like target, or 1..3 members of a MultiProgress over term_like_with_hz(R); observed per call: tracker tick notification (position limiter verdict) and flush + painted rows (target limiter verdict, frame content); non-trivial = at least one painted and one skipped call; distinct = distinct case text".into();
     let mut r = Rng::new(a.seed);
+    let mut d27_reported = 0u64;
     for c in corpus() {
-        run_case(&mut s, &c);
+        run_case(&mut s, &c, &mut d27_reported);
     }
     let per_rate: usize = if a.thorough { 14 } else if a.extended { 40 } else { 16 };
     let rates: Vec<u8> = if a.thorough || a.extended { (1..=255).collect() } else { QUICK_RATES.to_vec() };
@@ -759,14 +987,14 @@ fn main() {
         for k in 0..per_rate {
             let multi = k % 4 == 3;
             let c = gen_case(&mut r, Some(rate), multi, "gen");
-            run_case(&mut s, &c);
+            run_case(&mut s, &c, &mut d27_reported);
         }
     }
     // unthrottled target: the position limiter alone
     let n_free = if a.thorough { 600 } else if a.extended { 1500 } else { 200 };
     for k in 0..n_free {
         let c = gen_case(&mut r, None, k % 5 == 4, "gen");
-        run_case(&mut s, &c);
+        run_case(&mut s, &c, &mut d27_reported);
     }
     set_auto_step_ns(0);
     s.finish();
